@@ -23,12 +23,13 @@ NOENV = {'has': False, 'age': 0, 'cnt': 0, 'deps': []}
 
 
 class _Trace:
-    def __init__(self, tid, engine):
+    def __init__(self, tid, engine, env=None):
         self.tid = tid
         self.engine = engine
-        self.env = engine.env
+        self.env = engine.env if env is None else env
+        self.subs = []           # traces of the engine's ortho_to_envs (same state tensors, own environment)
         self.psi = engine.psi
-        self.L = engine.env.L
+        self.L = self.env.L
         self.K = 2 * self.L
         self.ver = [0] * self.L
         self.tab = {}  # id(array) -> (array, cnt, deps)
@@ -46,6 +47,7 @@ class Recorder:
     def __init__(self):
         self.events = []
         self.cur = None
+        self._t = None           # trace selected by active(env)
         self.armed = False
         self.depth = 0
         self._patches = []
@@ -68,20 +70,32 @@ class Recorder:
         self._patches = []
         self.installed = False
 
-    def emit(self, ev, **kw):
-        t = self.cur
+    def emit(self, ev, _t=None, **kw):
+        t = _t or self.cur
         d = {'tid': t.tid, 'ev': ev}
         d.update(kw)
         self.events.append(d)
         t.n_events += 1
 
     def active(self, env):
+        """The trace an environment belongs to (main environment or one of the ortho_to_envs); selects it for the
+        observation helpers.  None/False if the environment is not traced."""
         t = self.cur
-        return t is not None and not t.closed and env is t.env
+        self._t = None
+        if t is None or t.closed:
+            return False
+        if env is t.env:
+            self._t = t
+            return True
+        for sub in t.subs:
+            if env is sub.env and not sub.closed:
+                self._t = sub
+                return True
+        return False
 
     # ---- observation ------------------------------------------------------------------------
     def _rec_of(self, arr):
-        t = self.cur
+        t = self._t or self.cur
         r = t.tab.get(id(arr))
         if r is None or r[0] is not arr:
             raise core.MachineryError('environment array of unknown origin (identity tracking lost)')
@@ -92,7 +106,7 @@ class Recorder:
         return {'cnt': cnt, 'deps': list(deps)}
 
     def slots(self, side):
-        t = self.cur
+        t = self._t or self.cur
         env = t.env
         keys = env._LP_keys if side == 'L' else env._RP_keys
         ages = env._LP_age if side == 'L' else env._RP_age
@@ -108,10 +122,10 @@ class Recorder:
         return out
 
     def full_obs(self):
-        return dict(lp=self.slots('L'), rp=self.slots('R'), ver=list(self.cur.ver))
+        return dict(lp=self.slots('L'), rp=self.slots('R'), ver=list((self._t or self.cur).ver))
 
     def _register(self, arr, cnt, deps):
-        t = self.cur
+        t = self._t or self.cur
         t.tab[id(arr)] = (arr, cnt, list(deps)[:t.K])
 
     # ---- installation -----------------------------------------------------------------------
@@ -128,8 +142,12 @@ class Recorder:
                 r = orig(psi, i, B, form)
                 t = rec.cur
                 if t is not None and not t.closed and psi is t.psi:
+                    rec._t = None
                     t.ver[i % t.L] += 1
                     rec.emit('call', op='set_B', i=int(i), ver=list(t.ver))
+                    for sub in t.subs:      # the ortho_to_envs contain the same tensors (as bra)
+                        if not sub.closed:
+                            rec.emit('call', _t=sub, op='set_B', i=int(i), ver=list(t.ver))
                 return r
             return set_B
         self._patch(tmps.MPS, 'set_B', mk_set_B)
@@ -140,7 +158,7 @@ class Recorder:
                 def contract(env, i, P):
                     out = orig(env, i, P)
                     if rec.active(env):
-                        t = rec.cur
+                        t = rec._t
                         _, cnt, deps = rec._rec_of(P)
                         rec._register(out, cnt + 1, [t.ver[i % t.L]] + deps)
                     return out
@@ -148,6 +166,8 @@ class Recorder:
             return mk
         self._patch(tmpo.MPOEnvironment, '_contract_LP', mk_contract('L'))
         self._patch(tmpo.MPOEnvironment, '_contract_RP', mk_contract('R'))
+        self._patch(tmps.MPSEnvironment, '_contract_LP', mk_contract('L'))
+        self._patch(tmps.MPSEnvironment, '_contract_RP', mk_contract('R'))
 
         # -- get / set / del
         def mk_get(side):
@@ -160,14 +180,14 @@ class Recorder:
                         out = orig(env, i, store)
                     finally:
                         rec.depth -= 1
-                    if rec.depth == 0:
-                        t = rec.cur
+                    if rec.depth == 0 and rec.active(env):
+                        t = rec._t
                         if side == 'L':
                             t.lastL = out
-                            rec.emit('call', op='get_LP', i=int(i), store=bool(store), ret=rec.ret(out), lp=rec.slots('L'))
+                            rec.emit('call', _t=t, op='get_LP', i=int(i), store=bool(store), ret=rec.ret(out), lp=rec.slots('L'))
                         else:
                             t.lastR = out
-                            rec.emit('call', op='get_RP', i=int(i), store=bool(store), ret=rec.ret(out), rp=rec.slots('R'))
+                            rec.emit('call', _t=t, op='get_RP', i=int(i), store=bool(store), ret=rec.ret(out), rp=rec.slots('R'))
                     return out
                 return get
             return mk
@@ -181,7 +201,7 @@ class Recorder:
                     if not rec.active(env) or rec.depth > 0:
                         return orig(env, i, P, age)
                     # a part stored directly (not by get_LP/get_RP): the `combine` short cut of update_env
-                    t = rec.cur
+                    t = rec._t
                     j = i - 1 if side == 'L' else i + 1
                     keys = env._LP_keys if side == 'L' else env._RP_keys
                     key = keys[j % t.L]
@@ -206,11 +226,12 @@ class Recorder:
                         else:
                             rec._register(P, 0, [])
                     r = orig(env, i, P, age)
-                    op = ('heff_LP' if side == 'L' else 'heff_RP') if t.phase == 'update_env' else ('set_LP' if side == 'L' else 'set_RP')
+                    rec._t = t
+                    op = ('heff_LP' if side == 'L' else 'heff_RP') if rec.cur.phase == 'update_env' else ('set_LP' if side == 'L' else 'set_RP')
                     if side == 'L':
-                        rec.emit('call', op=op, i=int(i), age=-1 if age is None else int(age), eq=eq, lp=rec.slots('L'))
+                        rec.emit('call', _t=t, op=op, i=int(i), age=-1 if age is None else int(age), eq=eq, lp=rec.slots('L'))
                     else:
-                        rec.emit('call', op=op, i=int(i), age=-1 if age is None else int(age), eq=eq, rp=rec.slots('R'))
+                        rec.emit('call', _t=t, op=op, i=int(i), age=-1 if age is None else int(age), eq=eq, rp=rec.slots('R'))
                     return r
                 return set_
             return mk
@@ -223,9 +244,9 @@ class Recorder:
                     r = orig(env, i)
                     if rec.active(env) and rec.depth == 0:
                         if side == 'L':
-                            rec.emit('call', op='del_LP', i=int(i), lp=rec.slots('L'))
+                            rec.emit('call', _t=rec._t, op='del_LP', i=int(i), lp=rec.slots('L'))
                         else:
-                            rec.emit('call', op='del_RP', i=int(i), rp=rec.slots('R'))
+                            rec.emit('call', _t=rec._t, op='del_RP', i=int(i), rp=rec.slots('R'))
                     return r
                 return del_
             return mk
@@ -235,7 +256,7 @@ class Recorder:
         def mk_full(orig):
             def full_contraction(env, i0):
                 r = orig(env, i0)
-                if rec.active(env) and rec.depth == 0:
+                if rec.active(env) and rec.depth == 0 and rec._t is rec.cur:
                     t = rec.cur
                     rec.emit('call', op='full', i=int(i0), L=rec.ret(t.lastL), R=rec.ret(t.lastR))
                 return r
@@ -246,7 +267,7 @@ class Recorder:
         def mk_effH(orig):
             def __init__(effH, env, i0, *a, **kw):
                 orig(effH, env, i0, *a, **kw)
-                if rec.active(env):
+                if rec.active(env) and rec._t is rec.cur:
                     rec.emit('call', op='effH', i=int(i0), len=int(type(effH).length), kind=type(effH).__name__,
                              LP=rec.ret(effH.LP), RP=rec.ret(effH.RP))
             return __init__
@@ -272,6 +293,8 @@ class Recorder:
                 if t is not None and t.engine is engine and not t.closed:
                     if isinstance(engine, dmrg.DMRGEngine):
                         # the environment-level history ends here; the clean-up protocol follows
+                        rec._t = None
+                        rec.close_subs(t)
                         rec.emit('run_cleanup')
                         t.closed = True
                     else:
@@ -332,7 +355,34 @@ class Recorder:
 
         def of(engine):
             t = rec.cur
+            rec._t = None
             return t is not None and not t.closed and t.engine is engine
+
+        # -- environments <psi|psi_ortho> of an excited-state search: begin of their traces, the parts used to project
+        def mk_init_ortho(orig):
+            def _init_ortho_to_envs(engine, orthogonal_to, resume_data):
+                r = orig(engine, orthogonal_to, resume_data)
+                t = rec.cur
+                if t is not None and t.engine is engine and not t.closed and not t.subs:
+                    for o_env in engine.ortho_to_envs:
+                        rec.begin_sub(t, o_env)
+                return r
+            return _init_ortho_to_envs
+        self._patch(mc.Sweep, '_init_ortho_to_envs', mk_init_ortho)
+
+        def mk_wrap_ortho(orig):
+            def _wrap_ortho_eff_H(engine):
+                r = orig(engine)
+                if of(engine):
+                    for sub in rec.cur.subs:
+                        if not sub.closed:
+                            rec._t = sub
+                            rec.emit('call', _t=sub, op='effH', i=int(engine.i0), len=int(engine.EffectiveH.length), kind='ortho',
+                                     LP=rec.ret(sub.lastL), RP=rec.ret(sub.lastR))
+                    rec._t = None
+                return r
+            return _wrap_ortho_eff_H
+        self._patch(mc.Sweep, '_wrap_ortho_eff_H', mk_wrap_ortho)
 
         # -- phases of the sweep loop
         def mk_sweep(orig):
@@ -406,6 +456,7 @@ class Recorder:
 
     def begin(self, engine):
         self.ntraces += 1
+        self._t = None
         t = _Trace(self.ntraces, engine)
         self.cur = t
         env = t.env
@@ -419,8 +470,32 @@ class Recorder:
                   combine=bool(engine.combine), a0L=-1 if a0L is None else int(a0L), a0R=-1 if a0R is None else int(a0R),
                   engine=type(engine).__name__, **self.full_obs())
 
+    def begin_sub(self, t, o_env):
+        self.ntraces += 1
+        sub = _Trace(self.ntraces, t.engine, env=o_env)
+        sub.ver = t.ver                      # same state tensors
+        t.subs.append(sub)
+        self._t = sub
+        for keys in (o_env._LP_keys, o_env._RP_keys):
+            for key in keys:
+                if key in o_env.cache:
+                    self._register(o_env.cache[key], 0, [])
+        a0L, a0R = o_env._LP_age[0], o_env._RP_age[sub.L - 1]
+        self.emit('begin', _t=sub, L=sub.L, finite=bool(t.engine.psi.finite), n=int(t.engine.EffectiveH.length), combine=False,
+                  a0L=-1 if a0L is None else int(a0L), a0R=-1 if a0R is None else int(a0R), engine='ortho_to_env', **self.full_obs())
+        self._t = None
+
+    def close_subs(self, t):
+        for sub in t.subs:
+            if not sub.ended:
+                self.emit('end', _t=sub)
+                sub.closed = sub.ended = True
+
     def close(self):
         t = self.cur
+        self._t = None
+        if t is not None:
+            self.close_subs(t)
         if t is not None and not t.ended:
             self.emit('end')
             t.closed = True
